@@ -63,7 +63,10 @@ def wrappers(mode, names, quick, thorough, **kw):
 
 PROPS_RAW = {
     "C01": {"jobs": wrappers("excl", ["guarded", "guarded_opt", "shared_guarded",
-                                      "shared_guarded_opt", "ordered_guarded"], 100000, 2500000)},
+                                      "shared_guarded_opt", "ordered_guarded"], 100000, 2500000) +
+            # exclusion and "no leaked lock" also when user code throws under the lock
+            wrappers("throw", ["guarded", "guarded_opt", "shared_guarded", "ordered_guarded"],
+                     20000, 500000)},
     "C02": {"jobs": wrappers("rw", ["shared_guarded", "shared_guarded_opt", "ordered_guarded",
                                     "deferred_rw"], 100000, 2500000) +
             wrappers("rdv", ["shared_guarded", "shared_guarded_opt", "ordered_guarded",
@@ -109,18 +112,25 @@ PROPS_RAW = {
                      J("lr.mm", "wl_lr", 100000, 3000000, mode="std", races=1),
                      # slow-node fault: a reader parked inside lock_shared while writers run
                      J("lr.rstall", "wl_lr", 100000, 3000000, mode="rstall"),
+                     # "applied one at a time to the same sequence of states" also when a functor
+                     # throws (roll-back and repair paths of modify())
+                     J("lr.throw", "wl_lr", 60000, 1500000, mode="throw"),
                      # counter-width boundary: one thread holding 2 .. 131072 shared handles
                      # (long runs: few of them, own step limits, no twins)
                      J("lr.many", "wl_lr", 64, 600, mode="many", plain=0, limits=(1500000, 2500000),
                        no_twins=1)]},
-    "C04": {"jobs": [J("cow.std", "wl_cow", 150000, 4000000, mode="std")]},
+    "C04": {"jobs": [J("cow.std", "wl_cow", 150000, 4000000, mode="std"),
+                     # "frees the writer lock" also when copying the value throws inside lock()
+                     J("cow.throw", "wl_cow", 40000, 1000000, mode="throw")]},
     "C05": {"jobs": [J("rcu.std", "wl_rcu", 120000, 3000000, mode="std", elem=0),
                      J("rcu.std.string", "wl_rcu", 40000, 1000000, mode="std", elem=1),
                      # handles and iterators taken while a writer is parked inside push/erase
                      J("rcu.window", "wl_rcu", 60000, 1500000, mode="window", elem=0),
                      # fault: failing allocations inside push / erase / handle registration
                      J("rcu.oom", "wl_rcu", 40000, 1000000, mode="std", elem=0, oom=1, alloc=0)]},
-    "C06": {"jobs": [J("deferred", "wl_deferred", 200000, 5000000)]},
+    "C06": {"jobs": [J("deferred", "wl_deferred", 200000, 5000000),
+                     # two objects whose queued functions touch each other (nested drains)
+                     J("deferred.two", "wl_deferred2", 60000, 1500000)]},
     "C09": {"jobs": [J("barrier", "wl_barrier", 300000, 8000000)]},
     "C10": {"jobs": [J("latch", "wl_latch", 300000, 8000000)]},
     "C11": {"jobs": [J("trigger", "wl_trigger", 200000, 5000000)]},
